@@ -506,6 +506,8 @@ static void runLoops(const std::string& line)
 		Elem ext = mk(5); const Elem& item = (ii < a.GetCount()) ? a[ii] : ext; a.Insert(i, c, item); });
 	else if (fn == "aaddback") guardChild<A, false, std::function<void(A&)>, true>(n, cap, [=] (A& a) {     // the real Array::AddBack(const Item&)
 		Elem ext = mk(5); const Elem& item = (ii < a.GetCount()) ? a[ii] : ext; a.AddBack(item); });
+	else if (fn == "aaddbackm") guardChild<A, false, std::function<void(A&)>, true>(n, cap, [=] (A& a) {    // the real Array::AddBack(Item&&)
+		Elem ext = mk(5); if (ii < a.GetCount()) a.AddBack(std::move(a[ii])); else a.AddBack(std::move(ext)); });
 	else std::puts("unsupported-loop");
 }
 static void runGuard(const std::string& line)
